@@ -172,6 +172,13 @@ def run(ctx):
         ok = r[0] == "agg" and r[1] == "tuple" and len(r[3]) == 2
         if ok:
             w = strip_sym(r[3][0])
+            if w[0] == "call" and w[2]:
+                # the wrapper is built by a conversion (`impl From<&Arc<R>> for WeakRecorder<R>`): decided on that impl's body
+                conv = [g for g in u.fns if g.name in ("from", "into") and strip_generics(g.j.get("impl_self", "")).endswith("recoverable::WeakRecorder") and g.j.get("impl_trait") and (g.path == w[1] or strip_generics(g.path) == strip_generics(w[1]) or "WeakRecorder" in str(w[1]))]
+                if len(conv) == 1:
+                    inner = strip_sym(Sym(conv[0]).local(0))
+                    if inner[0] == "agg" and (inner[5] or "").endswith("recoverable::WeakRecorder") and len(inner[3]) == 1 and sym_is_call(inner[3][0], "Arc<T, A>::downgrade", "Arc<T>::downgrade") and is_param(sym_through(strip_sym(inner[3][0])[2][0]), 0):
+                        w = ("agg", inner[1], inner[2], (("call", strip_sym(inner[3][0])[1], (w[2][0],), strip_sym(inner[3][0])[3]),), inner[4], inner[5])
             ok = w[0] == "agg" and (w[5] or "").endswith("recoverable::WeakRecorder") and len(w[3]) == 1 and sym_is_call(w[3][0], "Arc<T, A>::downgrade", "Arc<T>::downgrade") and "'handle'" in repr(strip_sym(w[3][0])[2][0])
         if ok:
             h = strip_sym(r[3][1])
